@@ -77,7 +77,8 @@ def par_mc(ctx, jobs):
 
 def model_check(ctx):
     n = vlib.NCPU
-    fams = ["flat2q", "nestq", "reent_enter", "dupq", "term0q"] if ctx.quick() else ["flat3", "nest", "reent", "dup", "term0"]
+    fams = (["flat2q", "nestq", "reent_enter", "dupq", "term0q", "init0q"] if ctx.quick()
+            else ["flat3", "nest", "reent", "dup", "term0", "init0"])
     jobs = []
     for fam in fams:
         jobs.append({"label": "MC_Hfsm/%s (reference semantics, all clauses)" % fam, "expect": "ok",
@@ -105,10 +106,15 @@ def gen_program(rnd):
         k = rnd.randint(1, 4) if m > 1 else rnd.randint(2, 4)
         ids = rnd.sample(range(1, 10), k)
         ss = [{"id": i, "en": int(rnd.random() < 0.8), "ex": int(rnd.random() < 0.8), "sub": 0, "rs": [], "hd": []} for i in ids]
+        init = rnd.choice(ids)
         if rnd.random() < 0.35:
+            if m > 1 and rnd.random() < 0.08:
+                ids, ss = [], []              # a machine whose only state is its own state 0
             ss.insert(rnd.randint(0, len(ss)), {"id": 0, "en": int(rnd.random() < 0.8), "ex": int(rnd.random() < 0.8),
                                                 "sub": 0, "rs": [], "hd": []})
-        ms.append({"init": rnd.choice(ids), "cc": int(rnd.random() < 0.8), "ss": ss})
+            if not ids or rnd.random() < 0.25:
+                init = 0                      # the user-defined state 0 is the initial state (an ordinary state id)
+        ms.append({"init": init, "cc": int(rnd.random() < 0.8), "ss": ss})
     # nesting: machine m > 1 hangs under a state of an earlier machine; prefer chains (depth >= 2)
     parent = {}
     for m in range(2, nm + 1):
@@ -227,6 +233,13 @@ def definition_order(rnd, p):
         done.add(o)
         todo.remove(o)
     for m, M in enumerate(p["ms"], 1):
+        if rnd.random() < 0.5:
+            # the usual way to make a state initial: declare it first and do not call setInitState (declarations have no
+            # prerequisites, so moving one to the front of its machine's declarations keeps the order legal)
+            si = [i for i, S in enumerate(M["ss"], 1) if S["id"] == M["init"]][0]
+            firstpos = min(i for i, o in enumerate(order) if o[0] == "S" and o[1] == m)
+            order.remove(("S", m, si, 0))
+            order.insert(firstpos, ("S", m, si, 0))
         first = [o for o in order if o[0] == "S" and o[1] == m]
         if not first or M["ss"][first[0][2] - 1]["id"] != M["init"] or rnd.random() < 0.3:
             order.insert(rnd.randint(0, len(order)), ("I", m, 0, 0))
@@ -283,11 +296,18 @@ def coverage_guard(ctx, traces):
         cnt[k] = cnt.get(k, 0) + n
 
     names = {1: "Start", 2: "Stop", 3: "Restart", 4: "Run"}
+    init0 = set()
     for tr in traces:
         with open(tr) as f:
             for line in f:
                 if line.startswith('{"e":"Prog"'):
                     pr = json.loads(line)["p"]
+                    init0 = set()
+                    for mi, M in enumerate(pr["ms"], 1):
+                        ds = [d for d in pr.get("defs", []) if d[1] == mi]
+                        if (M["init"] == 0 and not any(d[0] == "I" for d in ds)
+                                and [d for d in ds if d[0] == "S"][0][2] == [i for i, S in enumerate(M["ss"], 1) if S["id"] == 0][0]):
+                            init0.add(mi)
                     seen_term = set()
                     replacing, rich0, prevq = set(), set(), None
                     for mi, M in enumerate(pr["ms"], 1):
@@ -322,6 +342,8 @@ def coverage_guard(ctx, traces):
                         add("nested_machine_terminated")
                     if t[0] == "E" and t[2] == 0:
                         add("user_terminal_state_entered")
+                        if t[3] == 0 and t[1] in init0:
+                            add("started_in_state_0_declared_first_without_setInitState")
                     if t[0] == "R":
                         add("reentrant_%s_rejected" % names[t[2]].lower())
                         if t[6] != t[1]:
@@ -332,7 +354,8 @@ def coverage_guard(ctx, traces):
     need = list(names.values()) + ["cb_" + k for k in "GHXAECR"] + ["nested_machine_terminated", "three_levels_active",
             "Stop_with_active_nested_machine", "reentrant_call_on_ancestor_rejected", "user_terminal_state_entered",
             "route_to_terminal_registered_before_user_terminal_state", "handler_registered_twice_later_one_ran",
-            "handler_or_guard_in_user_state_0", "route_out_of_user_state_0"] + ["reentrant_%s_rejected" % n.lower() for n in names.values()]
+            "handler_or_guard_in_user_state_0", "route_out_of_user_state_0",
+            "started_in_state_0_declared_first_without_setInitState"] + ["reentrant_%s_rejected" % n.lower() for n in names.values()]
     missing = [k for k in need if cnt.get(k, 0) == 0]
     if missing:
         raise vlib.Infra("vacuity guard: never exercised in the validated traces: " + ", ".join(missing))
